@@ -18,6 +18,8 @@ H_DECO = {
     "comment": "{e} {i} {e}<!-- c -->",
     "nowiki": "{e} {i} <nowiki>''</nowiki> {e}",
     "eqin": "{e} {i} a=b {e}",
+    "pf_if": "{e} {{{{#if:c|{i}|n}}}} {e}",
+    "pf_uc": "{e} {{{{uc:{i}}}}} t{{{{lc:X}}}} {e}",
 }
 # list item decorations: {m} marker
 L_DECO = {
@@ -33,6 +35,8 @@ L_DECO = {
     "colon": "{m} {i}: it",
     "br": "{m} {i}<br>it",
     "nowiki": "{m} <nowiki>*</nowiki> {i}",
+    "pf_if": "{m} {{{{#if:c|{i}|n}}}} it",
+    "pf_nest": "{m} {{{{#ifeq:{{{{lc:A}}}}|a|{{{{uc:{i}}}}}|{{{{#expr:1+1}}}}}}}}",
 }
 # balanced filler blocks (each is one or more complete non-list lines)
 F_KIND = {
@@ -52,6 +56,19 @@ F_KIND = {
     "nowiki": "<nowiki>* == </nowiki>{i}",
     "entity": "&amp; {i}",
     "blank": "",
+    # parser-function calls written with a colon (the open TEMPLATE node is retagged PARSER_FN by colon_fn)
+    "pf_if": "{{{{#if:c|{i}|n}}}}",
+    "pf_ifeq": "{{{{#ifeq:a|a|{i}|n}}}} t",
+    "pf_switch": "{{{{#switch:b|a=x|b={i}|#default=z}}}}",
+    "pf_uc": "t {{{{uc:{i}}}}}",
+    "pf_lc": "{{{{lc:ABC}}}} {i}",
+    "pf_expr": "{i} {{{{#expr:1+2*3}}}}",
+    "pf_pad": "{{{{padleft:{i}|6|.}}}} t",
+    "pf_nest": "{{{{#if:{{{{lc:X}}}}|{{{{uc:{i}}}}}|{{{{#expr:1}}}}}}}}",
+    "pf_tmplarg": "{{{{#if:c|{{{{tf|{i}}}}}|[[Tg|n]]}}}}",
+    "pf_linkarg": "{{{{#ifeq:a|a|[[Tg|{i}]]|{{{{tf|n}}}}}}}} t",
+    "pf_intmpl": "{{{{tf|{{{{#if:c|{i}}}}}}}}}",
+    "pf_ml": "{{{{#if:c\n|{i}\n|{{{{lc:N}}}}\n}}}}",
 }
 F_KINDS = sorted(F_KIND)
 H_DECOS = sorted(H_DECO)
